@@ -1,0 +1,10 @@
+//go:build !verif
+
+// Package verifhook provides scheduling points for the verification harness in /verif.
+// Without the `verif` build tag every hook is an empty function.
+package verifhook
+
+import "context"
+
+// Yield marks a point between two atomic segments; a no-op in normal builds.
+func Yield(context.Context, string) {}
